@@ -2285,9 +2285,16 @@ func (interp *Interpreter) cfg(root *node, sc *scope, importPath, pkgName string
 					case c0.kind == exprStmt && len(c0.child) == 1 && c0.child[0].action == aRecv:
 						an = c0.child[0].child[0]
 						pn = an
-					case c0.action == aAssign:
+					case c0.action == aAssign || c0.action == aAssignX:
 						an = c0.lastChild().child[0]
 						pn = an
+						// The operands on the left are evaluated when the case is selected (see _select):
+						// each one is a sequence of its own, which ends at the operand.
+						for _, lhs := range c0.child[:len(c0.child)-1] {
+							if lhs.kind != identExpr {
+								lhs.tnext = nil
+							}
+						}
 					case c0.kind == sendStmt:
 						an = c0.child[0]
 						pn = c0.child[1]
